@@ -17,7 +17,7 @@ where
     Const<N>: ToUInt,
     A::AccountLen: Mul<typenum::U<N>, Output: typenum::Unsigned>,
 {
-    type ContainsOption = typenum::False;
+    type ContainsOption = A::ContainsOption;
     type CpiAccounts = [A::CpiAccounts; N];
     type AccountLen = typenum::Prod<A::AccountLen, typenum::U<N>>;
 
